@@ -291,19 +291,25 @@ func (f *STFS) Mkdir(name string, perm os.FileMode) error {
 	f.ioLock.Lock()
 	defer f.ioLock.Unlock()
 
-	if _, err := inventory.Stat(
+	parent, err := inventory.Stat(
 		f.metadata,
 
 		filepath.Dir(name),
 		false,
 
 		f.onHeader,
-	); err != nil {
+	)
+	if err != nil {
 		if err == sql.ErrNoRows {
 			return os.ErrNotExist
 		}
 
 		return err
+	}
+
+	// Entries can only be created below directories
+	if parent.Typeflag != tar.TypeDir {
+		return config.ErrIsFile
 	}
 
 	if hdr, err := inventory.Stat(
@@ -469,19 +475,25 @@ func (f *STFS) OpenFile(name string, flag int, perm os.FileMode) (afero.File, er
 
 			createFile := func() error {
 				if !f.readOnly && flag&os.O_CREATE != 0 && flag&os.O_EXCL == 0 {
-					if _, err := inventory.Stat(
+					parent, err := inventory.Stat(
 						f.metadata,
 
 						filepath.Dir(name),
 						false,
 
 						f.onHeader,
-					); err != nil {
+					)
+					if err != nil {
 						if err == sql.ErrNoRows {
 							return os.ErrNotExist
 						}
 
 						return err
+					}
+
+					// Entries can only be created below directories
+					if parent.Typeflag != tar.TypeDir {
+						return config.ErrIsFile
 					}
 
 					if target, err := inventory.Stat(
